@@ -8,22 +8,26 @@ import Dmn.Lemmas.Dto
 
 Proved here, for all inputs:
 
-* (i) rendering: `Json.decode` (written from RFC 8259) reads back what `jsonify` writes —
-  for the code as it is only where no string or key needs escaping and every value has a
-  JSON form (`_partial`, finding F17, with counterexamples), and for the repaired renderer
-  `jsonifyFixed` for every value; the `{"data":…}` / `{"errors":[…]}` envelopes likewise.
+* (i) rendering: `Json.decode` (written from RFC 8259) reads back what `jsonify` writes, for
+  every value — strings and context keys with any characters (quotes, backslashes, control
+  and non-ASCII characters), booleans, nulls, lists, contexts, and the kinds written as the
+  string of their text — provided its number texts are numbers of the JSON grammar
+  (`numbersOk`; number printing is the subject of C07, and finding F17c = C07's F1 lies
+  outside: `jsonify_counterexample_number`).  The `{"data":…}` / `{"errors":[…]}` envelopes
+  likewise.
 * (ii) TCK DTOs: `fromDto (toDto v) = v` for typed values whose scalar texts are canonical
   for the text readers (`dto_roundtrip`).
 * (iii) handlers: every definitions endpoint performs exactly the corresponding `Dmn.WS`
-  operation and answers accordingly — `replace` only where nothing stored collides
-  (`_partial`, finding F18, with counterexample), and unconditionally once the handler calls
-  `Workspace::replace`; rejected requests change nothing and can be deleted from a history
-  without changing any other answer; the workspace invariant of C17 holds in every state
-  the service can reach.
+  operation and answers accordingly (`replace` = `Workspace::replace`); rejected requests
+  change nothing and can be deleted from a history without changing any other answer; the
+  workspace invariant of C17 holds in every state the service can reach.
+
+History: until dcf02f2 `jsonify` wrote strings and keys raw and other kinds as bare text
+(F17a, F17b), until b46c48f the replace handler called `Workspace::add` (F18); both are
+repaired and the statements below are the full ones.
 
 Not proved (exercised by the correspondence run): actix-web, serde_json, base64/UTF-8/XML
-decoding, sockets, the lock.  Number texts are assumed to be numbers of the JSON grammar
-(`numbersOk`; the subject of C07).
+decoding, sockets, the lock.
 -/
 
 namespace Dmn.Server
@@ -32,149 +36,86 @@ open Dmn.WS Dmn.Json
 /-! ## (i) Rendering -/
 
 /-
--- FULL STATEMENT (not provable of the current code, see finding F17)
-theorem jsonify_decodes (v : JV) (hn : numbersOk v = true) :
-    Json.decode (jsonify v) = some (toJson v)
-for every value built from strings of any scalar values (quotes, backslashes, control
-characters, non-ASCII), numbers, booleans, nulls, lists, contexts and the kinds that have no
-JSON form of their own (dates, times, durations, …: `toJson` = the string of their text).
+-- FULL STATEMENT (not provable of the current code, see finding F17c = C07 F1)
+theorem jsonify_decodes_all (v : Value) : Json.decode (v.jsonify()) = some (toJson v)
+for every value, number texts included: `FeelNumber::jsonify` writes `-0.00000015` as
+`0.000000-15`, which is no JSON number.  Number texts are a parameter of this model.
 -/
 
-/-- Where no string or context key contains `"`, `\` or a control character and every value
-is null, boolean, number, string, list or context, the text `jsonify` writes is a JSON
-document that decodes to the value. -/
-theorem jsonify_decodes_partial (v : JV) (he : noEscapeNeeded v = true) (hn : numbersOk v = true) :
+/-- For every value built from strings of any scalar values (quotes, backslashes, control
+characters, non-ASCII), booleans, nulls, lists, contexts (keys likewise) and the kinds written
+as strings, whose number texts are JSON numbers: the text `jsonify` writes is a JSON document
+that decodes to the value. -/
+theorem jsonify_decodes (v : JV) (hn : numbersOk v = true) :
     Json.decode (jsonify v) = some (toJson v) :=
-  decode_of_renders (jsonify_renders v he hn)
+  decode_of_renders (jsonify_renders v hn)
 
-/-- non-vacuity: a context with a non-ASCII string, a negative decimal and a nested list -/
-example : noEscapeNeeded (.ctx [(['k', ' ', '1'], .str ['é', '/', '🙏']), (['n'], .list [.num ['-', '1', '.', '5'], .null])]) = true ∧
-    numbersOk (.ctx [(['k', ' ', '1'], .str ['é', '/', '🙏']), (['n'], .list [.num ['-', '1', '.', '5'], .null])]) = true := by
+/-- non-vacuity, at the witnesses of the former findings F17a/F17b -/
+example : numbersOk (.ctx [(['a', '"', 'b'], .str ['a', '"', 'b', '\\', 'c', '\n']), (['d'], .other ['2', '0']),
+    (['n'], .list [.num ['-', '1', '.', '5'], .null, .str ['é', '/', '🙏']])]) = true := by
   decide
 
-/-- F17: the string `a"b\c⏎` is written raw; the text is not a JSON document at all. -/
-theorem jsonify_counterexample :
-    numbersOk (.str ['a', '"', 'b', '\\', 'c', '\n']) = true ∧
-    Json.decode (jsonify (.str ['a', '"', 'b', '\\', 'c', '\n'])) ≠ some (toJson (.str ['a', '"', 'b', '\\', 'c', '\n'])) := by
-  refine ⟨rfl, ?_⟩
-  have : (Json.decode (jsonify (.str ['a', '"', 'b', '\\', 'c', '\n']))).isNone = true := by decide
+/-- F17c: the number text `0.000000-15` (what `FeelNumber::jsonify` writes for `-0.00000015`)
+is outside the hypothesis, and the rendering is then not a JSON document. -/
+theorem jsonify_counterexample_number :
+    numbersOk (.num ['0', '.', '0', '0', '0', '0', '0', '0', '-', '1', '5']) = false ∧
+    Json.decode (jsonify (.num ['0', '.', '0', '0', '0', '0', '0', '0', '-', '1', '5'])) ≠
+      some (toJson (.num ['0', '.', '0', '0', '0', '0', '0', '0', '-', '1', '5'])) := by
+  refine ⟨by decide, ?_⟩
+  have : (Json.decode (jsonify (.num ['0', '.', '0', '0', '0', '0', '0', '0', '-', '1', '5']))).isNone = true := by decide
   intro h; rw [h] at this; cases this
 
-/-- F17: a context key `a"b` is written raw. -/
-theorem jsonify_counterexample_key :
-    Json.decode (jsonify (.ctx [(['a', '"', 'b'], .null)])) ≠ some (toJson (.ctx [(['a', '"', 'b'], .null)])) := by
-  have : (Json.decode (jsonify (.ctx [(['a', '"', 'b'], .null)]))).isNone = true := by decide
-  intro h; rw [h] at this; cases this
-
-/-- F17: a date is written as `jsonify not implemented for: 2021-01-01`. -/
-theorem jsonify_counterexample_temporal :
-    Json.decode (jsonify (.other ['2', '0', '2', '1', '-', '0', '1', '-', '0', '1'])) ≠
-      some (toJson (.other ['2', '0', '2', '1', '-', '0', '1', '-', '0', '1'])) := by
-  have : (Json.decode (jsonify (.other ['2', '0', '2', '1', '-', '0', '1', '-', '0', '1']))).isNone = true := by decide
-  intro h; rw [h] at this; cases this
-
-/-- The repair: with strings and keys escaped (`escape`) and the other kinds written as
-strings, the full statement holds — for every value, whatever its strings contain. -/
-theorem jsonifyFixed_decodes (v : JV) (hn : numbersOk v = true) :
-    Json.decode (jsonifyFixed v) = some (toJson v) :=
-  decode_of_renders (jsonifyFixed_renders v hn)
-
-/-- non-vacuity, at the witnesses of the three counterexamples -/
-example : numbersOk (.ctx [(['a', '"', 'b'], .str ['a', '"', 'b', '\\', 'c', '\n']), (['d'], .other ['2', '0'])]) = true := by
-  decide
-
-/-- `escape` is inverted by the decoder's string reader for every text: the function to put
-into `Value::jsonify` and `FeelContext::jsonify`. -/
+/-- `json_escape` is inverted by the decoder's string reader for every text. -/
 theorem escape_decodes (s : List Char) : Json.decode (quote s) = some (.str s) :=
   decode_of_renders (renders_quote s)
 
-/-- The repaired renderer changes nothing where the unrepaired one was right. -/
-theorem jsonifyFixed_conservative (v : JV) (he : noEscapeNeeded v = true) : jsonifyFixed v = jsonify v :=
-  jsonifyFixed_eq_of_plain v he
-
-/-
--- FULL STATEMENT (not provable of the current code, see finding F17)
-theorem response_wellformed (r : Resp) (hn : r.numbersOk = true) : Json.decode r.body = some r.json
--/
+/-- Why the escaping matters: the same text between bare quotation marks (what `jsonify` wrote
+before dcf02f2) is not a JSON document. -/
+theorem unescaped_string_not_json :
+    Json.decode ('"' :: (['a', '"', 'b', '\\', 'c', '\n'] ++ ['"'])) = none := by
+  have : (Json.decode ('"' :: (['a', '"', 'b', '\\', 'c', '\n'] ++ ['"']))).isNone = true := by decide
+  cases h : Json.decode ('"' :: (['a', '"', 'b', '\\', 'c', '\n'] ++ ['"'])) with
+  | none => rfl
+  | some j => rw [h] at this; cases this
 
 /-- Every body the service builds — `{"data":{…}}`, `{"data":<value>}`,
-`{"errors":[{"details":…}]}` — is a JSON document standing for the response; for evaluated
-values inside the region of `jsonify_decodes_partial`. -/
-theorem response_wellformed_partial (r : Resp) (he : r.noEscapeNeeded = true) (hn : r.numbersOk = true) :
+`{"errors":[{"details":…}]}` — is a JSON document standing for the response. -/
+theorem response_wellformed (r : Resp) (hn : r.numbersOk = true) :
     Json.decode r.body = some r.json := by
   cases r with
   | added ns name => exact decode_of_renders (renders_dataObjectBody _ _)
   | status t => exact decode_of_renders (renders_dataObjectBody _ _)
-  | value v => exact decode_of_renders (renders_dataBody (jsonify_renders v he hn))
+  | value v => exact decode_of_renders (renders_dataBody (jsonify_renders v hn))
   | error e => exact decode_of_renders (renders_errorBody _)
 
-example : (Resp.value (.list [.str ['x'], .num ['1', '2']])).noEscapeNeeded = true ∧
-    (Resp.value (.list [.str ['x'], .num ['1', '2']])).numbersOk = true := by decide
-
-/-- F17 at the level of the response: a decision returning the string `"` makes the body
-`{"data":"""}`, which no JSON parser accepts. -/
-theorem response_wellformed_counterexample :
-    Json.decode (Resp.value (.str ['"'])).body ≠ some (Resp.value (.str ['"'])).json := by
-  have : (Json.decode (Resp.value (.str ['"'])).body).isNone = true := by decide
-  intro h; rw [h] at this; cases this
+/-- non-vacuity: a decision returning the string `"` -/
+example : (Resp.value (.list [.str ['"'], .num ['1', '2']])).numbersOk = true := by decide
 
 /-- Error answers are well-formed for every message text (they go through `serde_json`,
 whose escaping `escape` transcribes). -/
 theorem error_response_wellformed (e : Err) : Json.decode (Resp.error e).body = some (Resp.error e).json :=
   decode_of_renders (renders_errorBody _)
 
-/-- With the repaired renderer every response is well-formed. -/
-theorem response_wellformed_fixed (r : Resp) (hn : r.numbersOk = true) :
-    Json.decode r.bodyFixed = some r.json := by
-  cases r with
-  | added ns name => exact decode_of_renders (renders_dataObjectBody _ _)
-  | status t => exact decode_of_renders (renders_dataObjectBody _ _)
-  | value v => exact decode_of_renders (renders_dataBody (jsonifyFixed_renders v hn))
-  | error e => exact decode_of_renders (renders_errorBody _)
-
 /-! ## (iii) Handlers -/
 
-/-
--- FULL STATEMENT (not provable of the current code, see finding F18)
-theorem handlers_refine_workspace (c : Codec) (eval : String → String → I → JV) (s : State)
-    (req : Request I) (op : Op) (hop : opOf c req = some op) :
-    handle c eval s req = ((step s op).1, respOf op (step s op).2)
--/
-
 /-- Each definitions endpoint, given acceptable parameters, performs exactly the workspace
-operation it stands for and answers with that operation's outcome — `replace` only when no
-stored model has the namespace or name of the new one (then `add` and `replace` coincide). -/
-theorem handlers_refine_workspace_partial {I : Type} (c : Codec) (eval : String → String → I → JV)
-    (s : State) (hs : Inv s) (req : Request I) (op : Op) (hop : opOf c req = some op)
-    (hf : replaceFresh s op = true) :
+operation it stands for — `replace` substituting the stored model of the same namespace and
+name — and answers with that operation's outcome; for every state. -/
+theorem handlers_refine_workspace {I : Type} (c : Codec) (eval : String → String → I → JV)
+    (s : State) (req : Request I) (op : Op) (hop : opOf c req = some op) :
     handle c eval s req = ((step s op).1, respOf op (step s op).2) :=
-  handle_refines c eval s hs req op hop hf
+  handle_refines c eval s req op hop
 
-/-- non-vacuity: replacing into a workspace that holds an unrelated model -/
-example : Inv (WS.add init ⟨"ns1", "n1", true⟩).1 ∧
-    replaceFresh (WS.add init ⟨"ns1", "n1", true⟩).1 (.replace ⟨"ns2", "n2", true⟩) = true := by
-  refine ⟨inv_step inv_init (.add _), ?_⟩
-  simp [replaceFresh, WS.add, init, Map.contains, Map.insert, Map.remove]
-
-/-- F18: after `add M`, `POST /definitions/replace` with the same `M` answers
-"definitions with namespace … already exist" and keeps the old model, whereas
-`Workspace::replace` succeeds. -/
-theorem handlers_refine_workspace_counterexample :
+/-- non-vacuity, at the witness of the former finding F18: after `add M`, `replace M` is the
+workspace operation `replace M` and is answered "definitions replaced". -/
+example :
     let d : Def := ⟨"ns", "n", true⟩
     let c : Codec := ⟨fun _ => some [], fun _ => some [], fun _ => .ok d⟩
     let s := (WS.add init d).1
     opOf (I := Unit) c (.replace (some [])) = some (.replace d) ∧
-    (handle (I := Unit) c (fun _ _ _ => JV.null) s (.replace (some []))).2.isError = true ∧
-    (respOf (.replace d) (step s (.replace d)).2).isError = false := by
+    (handle (I := Unit) c (fun _ _ _ => JV.null) s (.replace (some []))).2.isError = false := by
   simp [opOf, classify, handle, do_replace, addResult, WS.add, init, Map.contains, Map.insert, Map.remove,
-    Resp.isError, respOf, step, WS.replace, WS.remove, purge]
-
-/-- The repair (`workspace.replace(definitions)?` in `do_replace_definitions`): the full
-statement, for every state. -/
-theorem handlers_refine_workspace_fixed {I : Type} (c : Codec) (eval : String → String → I → JV)
-    (s : State) (req : Request I) (op : Op) (hop : opOf c req = some op) :
-    handleFixed c eval s req = ((step s op).1, respOf op (step s op).2) :=
-  handleFixed_refines c eval s req op hop
+    Resp.isError, WS.replace, WS.remove, purge]
 
 /-- A request that is rejected (missing parameter, invalid Base64, invalid UTF-8, unparsable
 XML) and any evaluation leave the workspace as it was; a rejected definitions request is
